@@ -614,7 +614,7 @@ def check(rep: Report, tier: str, seed: int) -> None:
             rep.fail("physics run: " + msg[0], {"physics": True, "seed": sd, "n": n, "times": times, "gamma": gamma, "omega": omega, "cfg_dt": CFG_DT[0]}, klass=msg[1])
     set_cfg_dt(10.0)
 
-    if rep.broken and not rep.failing:
+    if rep.broken and not rep.unknown_failing():
         search(rep, seed, 3000 if quick else 40000)
 
 
